@@ -100,6 +100,9 @@ def api_oracle(res, rng, known):
     bodies += ["<mrow><mi>%s</mi><mo>%s</mo><mn>3</mn></mrow>" % (rng.choice(CHARS), rng.choice(CHARS)) for _ in range(10)]
     bodies += ["<mrow><mi mathvariant='%s'>%s</mi><mo>+</mo><mn mathvariant='%s'>7</mn></mrow>" % (v, rng.choice("RxaΓ"), v) for v in VARIANTS]
     bodies += [X.gen(rng, 3) for _ in range(6 if res.tier == "quick" else 120)]
+    # author ids of every kind: an empty, blank or repeated id is nobody's navigation node
+    bodies += ["<mrow><mi id=''>x</mi><mo>+</mo><mn>12</mn></mrow>", "<mrow id=''><mfrac id=''><mn>1</mn><mi>x</mi></mfrac><mo id=' '>+</mo><mi>y</mi></mrow>",
+               "<mrow id='a'><mi id='a'>x</mi><mo id='a'>-</mo><msup id=''><mi id='q q'>y</mi><mn id='0'>2</mn></msup></mrow>"]
     sessions, meta = [], []
     for code in CELL_CODES + TEXT_CODES:
         for style in ("Off", "EndPoints", "All"):
